@@ -141,6 +141,10 @@ HARNESSES = [
     H("k_fast_tail", "K-fasttail", ["C01", "C02", "C12"], fns=["compress_fast (tail path: fewer than 4 bytes with a flush requested)"], cost=70, timeout=900,
       strength="B(1..3 bytes of work split between prior lookahead and new input in 4 concrete ways, window position 1000; complete in data, flags, window bits, flush mode, dictionary size)",
       note="flush_block replaced by a no-op model (not reached: the token buffer is far from full)"),
+    # ---- K-normal-early ----
+    H("k_normal_early_return_keeps_lazy_state", "K-normal-early", ["C01", "C02"], fns=["compress_normal (first token decision and early return after flush_block)"], cost=80, timeout=900,
+      strength="B(3 concrete input bytes at window position 40000, one token decision; complete in flags, window bits, dictionary size, matcher result, flush_block result)",
+      note="find_match / record_match / record_literal / flush_block replaced by contract models"),
     # ---- K-huff ----
     H("k_enforce_max_code_size_kraft", "K-huff", ["C10"], fns=["HuffmanOxide::enforce_max_code_size"], cost=50, timeout=900,
       strength="B(<= 9 codes, tree depths <= 9, limit 7; complete over every depth histogram of a full binary tree in that range)"),
